@@ -345,6 +345,14 @@ def r2_functions(program, folder, rep, eths):
                             same(poly(gt[3]), size) and \
                             poly(gt[2]) == v + d + r:
                         ok = True
+        if not ok and not (gt[0] == "binop" and gt[1] == "Mod"):
+            # another scheme altogether (e.g. a sweep from one cell below
+            # the root, filtered by the bounds): not a form this rule reads
+            raise AnalysisError("spinn5_eth_coords: the yielded %s "
+                                "coordinate is not reduced modulo the "
+                                "rounded size; how the positions are "
+                                "enumerated is not analysed in that form"
+                                % which)
         rep.check(ok, "C19-R2", inst,
                   "yielded %s = (cell origin + board offset + root_%s) %% "
                   "(size rounded up to a multiple of 12), cell origins "
